@@ -36,7 +36,13 @@ func (p *Prog) AnchorName(fn *ssa.Function) string {
 		fn = o
 	}
 	if fn.Parent() == nil {
+		if old, ok := p.renamedTo[fn]; ok {
+			return old
+		}
 		return p.FuncName(fn)
+	}
+	if n, ok := p.litNames[fn]; ok {
+		return p.AnchorName(fn.Parent()) + "$" + n
 	}
 	return p.AnchorName(fn.Parent()) + "$" + p.litVarName(fn)
 }
@@ -76,6 +82,91 @@ func (p *Prog) litVarName(fn *ssa.Function) string {
 	return ""
 }
 
+// anchorSigs: the signature recorded with each declared anchor function
+// ("name<TAB>signature" lines of anchors.txt).
+var anchorSigs map[string]string
+
+// SigKey renders the receiver, parameter and result types of a declared
+// function (without parameter names): what stays the same when the function
+// is only renamed.
+func (p *Prog) SigKey(fn *ssa.Function) string {
+	sig := fn.Signature
+	var sb strings.Builder
+	if r := sig.Recv(); r != nil {
+		sb.WriteString("(" + p.shorten(types.TypeString(r.Type(), nil)) + ")")
+	}
+	tuple := func(t *types.Tuple) {
+		sb.WriteString("(")
+		for i := 0; i < t.Len(); i++ {
+			if i > 0 {
+				sb.WriteString(",")
+			}
+			sb.WriteString(p.shorten(types.TypeString(t.At(i).Type(), nil)))
+		}
+		sb.WriteString(")")
+	}
+	tuple(sig.Params())
+	if sig.Variadic() {
+		sb.WriteString("...")
+	}
+	tuple(sig.Results())
+	return sb.String()
+}
+
+// resolveRenames: an anchor function that the tree no longer has under its
+// name, while exactly one declared function of the same package that is not an
+// anchor itself has the same receiver, parameter and result types, was
+// renamed: that function answers to the old name (AnchorName, Func).
+func (p *Prog) resolveRenames(anchors map[string]bool) []string {
+	if len(anchorSigs) == 0 {
+		return nil
+	}
+	have := map[string]*ssa.Function{}
+	for _, f := range p.srcFuncs {
+		if f.Parent() == nil {
+			have[p.FuncName(f)] = f
+		}
+	}
+	pkgOf := func(name string) string {
+		// "(*ech.Conn).Read" / "ech.readRecord" -> "ech"
+		s := strings.TrimLeft(name, "(*")
+		if i := strings.Index(s, "."); i >= 0 {
+			return s[:i]
+		}
+		return s
+	}
+	var log []string
+	var missing []string
+	for name := range anchorSigs {
+		if _, ok := have[name]; !ok && !strings.Contains(name, "$") {
+			missing = append(missing, name)
+		}
+	}
+	sort.Strings(missing)
+	taken := map[*ssa.Function]bool{}
+	for _, name := range missing {
+		var cands []*ssa.Function
+		for n, f := range have {
+			if anchors[n] || taken[f] || f.Synthetic != "" || pkgOf(n) != pkgOf(name) || p.SigKey(f) != anchorSigs[name] {
+				continue
+			}
+			cands = append(cands, f)
+		}
+		if len(cands) != 1 {
+			continue
+		}
+		if p.renamedTo == nil {
+			p.renamedTo = map[*ssa.Function]string{}
+			p.renamedFrom = map[string]*ssa.Function{}
+		}
+		taken[cands[0]] = true
+		p.renamedTo[cands[0]] = name
+		p.renamedFrom[name] = cands[0]
+		log = append(log, fmt.Sprintf("%s answers to the anchor name %s (same signature, the only candidate)", p.FuncName(cands[0]), name))
+	}
+	return log
+}
+
 // ReadAnchors reads anchors.txt (one name per line, # comments).
 func ReadAnchors(file string) (map[string]bool, error) {
 	f, err := os.Open(file)
@@ -90,12 +181,38 @@ func ReadAnchors(file string) (map[string]bool, error) {
 		if l == "" || strings.HasPrefix(l, "#") {
 			continue
 		}
+		if strings.HasPrefix(l, "type\t") || strings.HasPrefix(l, "var\t") {
+			parseLayoutLine(l)
+			continue
+		}
+		if i := strings.Index(l, "\t"); i >= 0 {
+			if anchorSigs == nil {
+				anchorSigs = map[string]string{}
+			}
+			anchorSigs[l[:i]] = l[i+1:]
+			l = l[:i]
+		}
 		out[l] = true
 	}
 	return out, sc.Err()
 }
 
 // AnchorNames lists the anchor names of every source function of the module.
+// AnchorSigs: SigKey of every declared source function, by anchor name.
+func (p *Prog) AnchorSigs() map[string]string {
+	out := map[string]string{}
+	for _, f := range p.srcFuncs {
+		if f.Synthetic != "" {
+			continue
+		}
+		if f.Parent() == nil || p.litVarName(f) != "" {
+			// (declared functions, and function literals that have a name)
+			out[p.AnchorName(f)] = p.SigKey(f)
+		}
+	}
+	return out
+}
+
 func (p *Prog) AnchorNames() []string {
 	seen := map[string]bool{}
 	for _, f := range p.srcFuncs {
@@ -195,6 +312,35 @@ func (p *Prog) Flatten(anchors map[string]bool) ([]string, error) {
 	}
 	// `go helper(args)` with a helper that is not an anchor: the goroutine's
 	// body moves back into a literal of the function that starts it
+	// the name of the local literal the method stands for: its own name, or the
+	// name of the one named literal of f that the anchors list, the tree no
+	// longer has and whose parameter and result types are the method's
+	methodHint := func(f, callee *ssa.Function) string {
+		pre := p.AnchorName(f) + "$"
+		if anchors[pre+callee.Name()] {
+			return callee.Name()
+		}
+		sig := p.SigKey(callee)
+		if r := callee.Signature.Recv(); r != nil {
+			sig = strings.TrimPrefix(sig, "("+p.shorten(types.TypeString(r.Type(), nil))+")")
+		}
+		existing := map[string]bool{}
+		for _, g := range funcs {
+			existing[p.AnchorName(g)] = true
+		}
+		found := ""
+		for name, s := range anchorSigs {
+			rest, ok := strings.CutPrefix(name, pre)
+			if !ok || rest == "" || strings.Contains(rest, "$") || s != sig || existing[name] {
+				continue
+			}
+			if found != "" && found != rest {
+				return ""
+			}
+			found = rest
+		}
+		return found
+	}
 	rehome := func() (int, error) {
 		rehomed := 0
 		for _, f := range append([]*ssa.Function(nil), funcs...) {
@@ -268,6 +414,13 @@ func (p *Prog) Flatten(anchors map[string]bool) ([]string, error) {
 						for _, in := range b.Instrs {
 							if c, ok := in.(*ssa.Call); ok && target == nil {
 								if g, _ := ssa.StaticInlinee(c); g != f && (pick(g) || pickTail(c, g)) {
+									// (left for the next methods pass: a method of a local
+									// struct that stands for a named literal of this function)
+									if g.Parent() == nil && g.Signature.Recv() != nil && len(c.Call.Args) > 0 && methodHint(f, g) != "" {
+										if a := ssa.LocalStructOf(c.Call.Args[0]); a != nil && a.Parent() == f {
+											continue
+										}
+									}
 									target = c
 								}
 							}
@@ -309,7 +462,88 @@ func (p *Prog) Flatten(anchors map[string]bool) ([]string, error) {
 		}
 		return nil
 	}
+	// a method of a local state struct, called where the tree the rules were
+	// written for has a named local function literal of the same name (and so
+	// an anchor `F$name`): the inverse refactoring is applied instead of
+	// inlining a copy into every call site - the method's body becomes a literal
+	// of the calling function that captures the struct (which the splitting
+	// below then dissolves into the variables the literal had captured)
+	methods := func() (int, error) {
+		n := 0
+		for _, f := range append([]*ssa.Function(nil), funcs...) {
+			if (!anchors[p.AnchorName(f)] && f.Parent() == nil) || len(f.Blocks) == 0 {
+				continue
+			}
+			top := f
+			for top.Parent() != nil {
+				top = top.Parent()
+			}
+			if o := top.Origin(); o != nil && o != top {
+				continue
+			}
+			group := map[*ssa.Function][]*ssa.Call{}
+			var order []*ssa.Function
+			for _, b := range f.Blocks {
+				for _, in := range b.Instrs {
+					c, ok := in.(*ssa.Call)
+					if !ok {
+						continue
+					}
+					callee := c.Call.StaticCallee()
+					if callee == nil || callee.Parent() != nil || !inMod(callee) || recursive[callee] || anchors[p.AnchorName(callee)] || callee.Signature.Recv() == nil {
+						continue
+					}
+					if methodHint(f, callee) == "" {
+						continue
+					}
+					if group[callee] == nil {
+						order = append(order, callee)
+					}
+					group[callee] = append(group[callee], c)
+				}
+			}
+			for _, callee := range order {
+				calls := group[callee]
+				var recv *ssa.Alloc
+				same := true
+				for _, c := range calls {
+					a := ssa.LocalStructOf(c.Call.Args[0])
+					if a == nil || a.Parent() != f || (recv != nil && a != recv) {
+						same = false
+						break
+					}
+					recv = a
+				}
+				if !same || recv == nil {
+					continue
+				}
+				w := f.RehomeMethod(callee, calls, recv)
+				if w == nil {
+					continue
+				}
+				f.Rebuild()
+				if err := f.SanityCheck(); err != nil {
+					return n, fmt.Errorf("flatten: %v", err)
+				}
+				if err := w.SanityCheck(); err != nil {
+					return n, fmt.Errorf("flatten: %v", err)
+				}
+				if p.litNames == nil {
+					p.litNames = map[*ssa.Function]string{}
+				}
+				p.litNames[w] = methodHint(f, callee)
+				p.srcFuncs = append(p.srcFuncs, w)
+				funcs = append(funcs, w)
+				log = append(log, fmt.Sprintf("%s <- method %s as a literal", p.FuncName(f), p.FuncName(callee)))
+				n++
+			}
+		}
+		return n, nil
+	}
 	if _, err := rehome(); err != nil {
+		return log, err
+	}
+	if _, err := methods(); err != nil {
 		return log, err
 	}
 	if err := inline(); err != nil {
@@ -350,7 +584,11 @@ func (p *Prog) Flatten(anchors map[string]bool) ([]string, error) {
 		if err != nil {
 			return log, err
 		}
-		if n+m == 0 {
+		k, err := methods()
+		if err != nil {
+			return log, err
+		}
+		if n+m+k == 0 {
 			break
 		}
 		if err := inline(); err != nil {
